@@ -14,30 +14,31 @@ from concurrent.futures import ThreadPoolExecutor
 from common import *
 
 EXEC = os.path.join(HARNESS, "c17_exec.py")
-BASE = dict(MaxMsgs=5, MaxDepth=3, MaxTasks=2, MaxResv=1, ActTypes='{"A", "B"}', MsgTypes='{"m", "A"}', EarlyFinish="TRUE",
+BASE = dict(MaxMsgs=5, MaxMsgsR=5, MaxDepth=3, MaxTasks=2, MaxResv=1, ActTypes='{"A", "B"}', MsgTypes='{"m", "A"}', EarlyFinish="TRUE",
             Stack="FALSE", Mode='"gen"', Emit="TRUE", Broken=0)
 M_ONLY = '{"m"}'
 JAVA_STACK = "-Xss64m"        # the transcriptions are recursive scans; long captured lists need a deeper Java stack
 GEN = {
     "quick": [
         ("hand", dict(Mode='"hand"')),
-        ("free4", dict(MaxMsgs=4)),
-        ("stack6", dict(MaxMsgs=6, Stack="TRUE", MaxTasks=1, MsgTypes=M_ONLY)),
+        ("free4", dict(MaxMsgs=4, MaxMsgsR=4)),
+        ("stack6", dict(MaxMsgs=6, MaxMsgsR=5, Stack="TRUE", MaxTasks=1, MsgTypes=M_ONLY)),
     ],
     "thorough": [
         ("hand", dict(Mode='"hand"')),
-        ("free4", dict(MaxMsgs=4)),
-        ("free5", dict(MaxMsgs=5, MsgTypes=M_ONLY)),
-        ("stack6x2", dict(MaxMsgs=6, Stack="TRUE", MaxTasks=2, MsgTypes=M_ONLY, MaxResv=0)),
-        ("stack7", dict(MaxMsgs=7, Stack="TRUE", MaxTasks=1, MsgTypes=M_ONLY)),
+        ("free4", dict(MaxMsgs=4, MaxMsgsR=4)),
+        ("free5", dict(MaxMsgs=5, MaxMsgsR=5, MsgTypes=M_ONLY)),
+        ("stack6x2", dict(MaxMsgs=6, MaxMsgsR=6, Stack="TRUE", MaxTasks=2, MsgTypes=M_ONLY, MaxResv=0)),
+        ("stack7", dict(MaxMsgs=7, MaxMsgsR=7, Stack="TRUE", MaxTasks=1, MsgTypes=M_ONLY)),
     ],
 }
 # deliberately false claims TLC must refute (vacuity guards of the universe / of the invariants)
 GUARDS = [("hand", 1, "a late remote sub-task is listed after its younger siblings"),
           ("hand", 2, "of_type raises for unfinished actions"),
-          ("hand", 3, "interleaved tasks with equal-typed ancestor and descendant exist")]
-PROGRAMS = {"quick": [("mixed", 500, 14), ("wide", 60, 60), ("fan", 40, 3), ("blocks", 200, 12)],
-            "thorough": [("mixed", 9000, 16), ("wide", 800, 90), ("fan", 600, 3), ("blocks", 3000, 14), ("deep", 1500, 24)]}
+          ("hand", 3, "interleaved tasks with equal-typed ancestor and descendant exist"),
+          ("hand", 4, "of_type restricted to top-level actions differs from of_type")]
+PROGRAMS = {"quick": [("mixed", 500, 14), ("wide", 40, 60), ("fan", 25, 3), ("blocks", 200, 12)],
+            "thorough": [("mixed", 6000, 16), ("wide", 500, 90), ("fan", 300, 3), ("blocks", 2000, 14), ("deep", 1000, 24)]}
 
 
 def make_cfg(over):
@@ -349,63 +350,71 @@ def run(prop, tier):
                                         "start_message/end_message aliases equal startMessage/endMessage",
                                         "ActionType/MessageType objects select the same entries as their names"]
     try:
-        # ---- TLC: the universe, the invariants, the predictions
+        # ---- everything runs side by side: one job per TLC universe (TLC, then the real code on its lists, then TLC's
+        # verdict on a sample of the recorded answers), the vacuity guards, and the programs (real library, then TLC)
         jobs = GEN[tier]
-        guards = GUARDS if tier == "thorough" else GUARDS[:2]
-        with ThreadPoolExecutor(max_workers=4) as ex:
-            futs = [ex.submit(tlc_universe, name, over, max(4, WORKERS // 2)) for name, over in jobs]
+        guards = GUARDS if tier == "thorough" else [GUARDS[0], GUARDS[3]]
+        sample = 400 if tier == "quick" else 2000
+        progs = random_programs(tier)
+
+        def universe_job(name, over):
+            name, consts, r, ps = tlc_universe(name, over, max(4, WORKERS // 2))
+            if r.violated:
+                return name, consts, r, [], []
+            if not ps:
+                raise MachineryFailure("MC_Helpers %s printed no predictions" % name)
+            for p in ps:
+                p["cfg"] = name
+            return name, consts, r, ps, exec_lists(ps)
+
+        def program_job():
+            pobs = exec_programs(progs)
+            return (pobs,) + validate_traces(pobs)
+
+        with ThreadPoolExecutor(max_workers=len(jobs) + len(guards) + 1) as ex:
+            pfut = ex.submit(program_job)
+            futs = [ex.submit(universe_job, name, over) for name, over in sorted(jobs, key=lambda j: -j[1].get("MaxMsgs", 0))]
             gfuts = [ex.submit(tlc_universe, "guard%d" % b, dict(Mode='"hand"', Emit="FALSE", Broken=b), 2) for (_, b, _) in guards]
-            progs = random_programs(tier)
-            pfut = ex.submit(exec_programs, progs)
             results = [f.result() for f in futs]
             gres = [f.result() for f in gfuts]
-            pobs = pfut.result()
+            pobs, verdicts, st2 = pfut.result()
         for (_, b, what), (name, consts, r, _) in zip(guards, gres):
             rep.add_tlc("MC_Helpers %s" % name, r, {"Mode": "hand", "Broken": b}, expect_violation="BrokenClaim")
             if r.violated != "BrokenClaim":
                 raise MachineryFailure("vacuity guard %d (%s) was not refuted by TLC" % (b, what))
-        preds = []
-        for name, consts, r, ps in results:
+        # ---- spec -> code
+        seen, preds, allobs = set(), [], []
+        for name, consts, r, ps, obs in results:
             rep.add_tlc("MC_Helpers %s" % name, r, consts)
             if r.violated:
                 rep.violation("TLC: invariant %s violated on Helpers.tla (%s)" % (r.violated, name),
                               {"module": "checks_c17", "engine": "helpers-tla", "kind": "spec", "config": consts, "tlc_tail": r.out[-6000:]})
                 continue
-            if not ps:
-                raise MachineryFailure("MC_Helpers %s printed no predictions" % name)
-            for p in ps:
-                p["cfg"] = name
-            preds += ps
-        seen, uniq = set(), []
-        for p in preds:
-            k = json.dumps(p["S"])
-            if k not in seen:
+            for p, o in zip(ps, obs):
+                k = json.dumps(p["S"])
+                if k in seen:
+                    continue
                 seen.add(k)
-                uniq.append(p)
-        preds = uniq
-        # ---- spec -> code
-        obs = exec_lists(preds)
-        bad_a = 0
-        for p, o in zip(preds, obs):
-            rep.count_case(p["S"], nontrivial_list(p["S"]))
-            rep.cov["traces_validated_against_impl"] += 1
-            clause, where = compare(p, o)
-            if clause:
-                bad_a += 1
-                rep.violation("real helpers differ from Helpers.tla on an enumerated list: clause %s (%s); list %s" % (clause, where, p["S"]),
-                              {"module": "checks_c17", "engine": "helpers-tla", "kind": "list", "clause": clause, "where": where, "pred": p})
+                preds.append(p)
+                allobs.append(o)
+                rep.count_case(p["S"], nontrivial_list(p["S"]))
+                rep.cov["traces_validated_against_impl"] += 1
+                clause, where = compare(p, o)
+                p["clause"] = clause
+                if clause:
+                    rep.violation("real helpers differ from Helpers.tla on an enumerated list: clause %s (%s); list %s" % (clause, where, p["S"]),
+                                  {"module": "checks_c17", "engine": "helpers-tla", "kind": "list", "clause": clause, "where": where, "pred": p})
         # the same answers, judged by TLC as well (all hand-written lists, a sample of the generated ones)
         rng = random.Random(SEED)
         idx = [i for i, p in enumerate(preds) if p["cfg"] == "hand"]
         rest = [i for i, p in enumerate(preds) if p["cfg"] != "hand"]
-        idx += rng.sample(rest, min(len(rest), 400 if tier == "quick" else 4000))
-        verdicts, st1 = validate_traces([obs[i] for i in idx])
-        for (clause, o), i in zip(verdicts, idx):
-            if clause and not compare(preds[i], obs[i])[0]:
+        idx += sorted(rng.sample(rest, min(len(rest), sample)))
+        sv, st1 = validate_traces([allobs[i] for i in idx])
+        for (clause, o), i in zip(sv, idx):
+            if clause and not preds[i]["clause"]:
                 rep.violation("TLC (Trace_Helpers) rejects the real helpers' answers on an enumerated list: clause %s; list %s" % (clause, preds[i]["S"]),
                               {"module": "checks_c17", "engine": "helpers-tla", "kind": "list", "clause": clause, "pred": preds[i]})
         # ---- code -> spec
-        verdicts, st2 = validate_traces(pobs)
         rep.cov["states"] += st1 + st2
         rep.cov["transitions"] += st1 + st2
         ood = 0
